@@ -559,6 +559,10 @@ func (e *Engine) enterBlock(st *State, fr *Frame) ([]*State, bool) {
 			e.oblige(st, base+"."+inv.Label+".establish", "loop-establish", g, "loop invariant holds on entry: "+inv.Src, fr.fc.Props)
 		}
 		// havoc loop-carried state
+		preGhost := map[string]*Term{}
+		for g, t := range st.ghost {
+			preGhost[g] = t
+		}
 		e.havocLoop(st, fr, li, spec)
 		// phis get fresh values: pre-assign so the Phi instruction keeps them
 		env2 := e.newEnv(st, fr.fc.Pkg)
@@ -568,10 +572,16 @@ func (e *Engine) enterBlock(st *State, fr *Frame) ([]*State, bool) {
 		for _, inv := range spec.Invs {
 			st.assume(e.evalBool(env2, inv.E))
 		}
-		if spec.Decreases != nil {
-			v := e.evalExpr(env2, spec.Decreases).(*Term)
-			fr.loopIn[li.Ord] = &loopSnap{variant: v}
+		snap := &loopSnap{ghost: map[string]*Term{}}
+		for g, t := range st.ghost {
+			if pre := preGhost[g]; pre != nil && pre.T == t.T {
+				snap.ghost[g] = t // not havocked: the body must leave it alone
+			}
 		}
+		if spec.Decreases != nil {
+			snap.variant = e.evalExpr(env2, spec.Decreases).(*Term)
+		}
+		fr.loopIn[li.Ord] = snap
 		// skip the phi instructions (already assigned)
 		for fr.idx < len(fr.block.Instrs) {
 			if _, ok := fr.block.Instrs[fr.idx].(*ssa.Phi); ok {
@@ -606,7 +616,17 @@ func (e *Engine) enterBlock(st *State, fr *Frame) ([]*State, bool) {
 		g := e.evalBool(env, inv.E)
 		e.oblige(st, base+"."+inv.Label+".preserve", "loop-preserve", g, "loop invariant preserved by the body: "+inv.Src, fr.fc.Props)
 	}
-	if spec.Decreases != nil && fr.loopIn[li.Ord] != nil {
+	if snap := fr.loopIn[li.Ord]; snap != nil {
+		// ghost state that was not havocked at the loop head (not in the loop's modifies) must come back unchanged
+		for _, gname := range e.W.GhostOrd {
+			h, cur := snap.ghost[gname], st.ghost[gname]
+			if h == nil || cur == nil || h.T == cur.T {
+				continue
+			}
+			e.oblige(st, base+".frame."+gname, "loop-frame", smtEq(cur.T, h.T), "the loop body leaves ghost state "+gname+" as it was at the loop head (it is not in the loop's modifies)", fr.fc.Props)
+		}
+	}
+	if spec.Decreases != nil && fr.loopIn[li.Ord] != nil && fr.loopIn[li.Ord].variant != nil {
 		v := e.evalExpr(env, spec.Decreases).(*Term)
 		old := fr.loopIn[li.Ord].variant
 		var g string
@@ -701,6 +721,11 @@ func (e *Engine) havocLoop(st *State, fr *Frame, li *LoopInfo, spec *LoopSpec) {
 		}
 	}
 	for _, g := range mods {
+		if g == "nothing" {
+			// `loop #k modifies nothing`: the loop leaves all ghost state alone (checked: the frame obligation of the
+			// function would fail otherwise, since writes inside the body still update the state)
+			continue
+		}
 		st.ghost[g] = e.freshGhost(g)
 	}
 }
